@@ -197,8 +197,8 @@ PROPS["C02"] = {
 }
 PROPS["C07"] = {
     "level": "other",
-    "technique": "deductive verification of Scaffold.append_scaffold (gap inserted iff joining onto existing rows), of the fusion loop of BuildAssembly.scaffolds_fused_by_name (per piece: fused under (tag, haplotype, name), join gap iff joining), of the no-terminal-gap invariant of overlap results, of to_scaffold; bounded gap oracle over remapping runs",
-    "level_text": "Proved: append_scaffold inserts the given gap exactly when a gap is given and the scaffold already has rows, keeps the existing rows and appends the other scaffold's rows in order; find_overlaps and every trimming operation leave first and last rows that are contigs (no output piece begins or ends with a gap); to_scaffold keeps or exactly reverses the rows; scaffolds_fused_by_name skips pieces without rows and appends every other piece to the fused scaffold of its key (tag, haplotype, name) - created with the piece's name, tag, haplotype and rank when the key is new - behind the join gap exactly when that scaffold already had rows, keeping its earlier rows and every other fused scaffold (per iteration of the fusion loop). Bounded: the gap rule of add_missing_scaffolds_from_input and of whole runs (adjacency only where the input had it, input gap only between its own neighbours, join gap elsewhere) - the two sites of the repaired defects (0f837d3, 7fa0cee).",
+    "technique": "deductive verification of Scaffold.append_scaffold (gap inserted iff joining onto existing rows), of the left-over rule of BuildAssembly.add_missing_scaffolds_from_input (per input row), of the fusion loop of BuildAssembly.scaffolds_fused_by_name (per piece: fused under (tag, haplotype, name), join gap iff joining), of the no-terminal-gap invariant of overlap results, of to_scaffold; bounded gap oracle over remapping runs",
+    "level_text": "Proved: append_scaffold inserts the given gap exactly when a gap is given and the scaffold already has rows, keeps the existing rows and appends the other scaffold's rows in order; find_overlaps and every trimming operation leave first and last rows that are contigs (no output piece begins or ends with a gap); to_scaffold keeps or exactly reverses the rows; scaffolds_fused_by_name skips pieces without rows and appends every other piece to the fused scaffold of its key (tag, haplotype, name) - created with the piece's name, tag, haplotype and rank when the key is new - behind the join gap exactly when that scaffold already had rows, keeping its earlier rows and every other fused scaffold (per iteration of the fusion loop). add_missing_scaffolds_from_input walks every input scaffold row by row (per-row postcondition over the inlined generator): a contig the map placed adds nothing, a contig it did not place is appended to the left-over scaffold (named after the input scaffold, rank 3) preceded by nothing when the previously appended contig is the row just before it, by the input gap row when exactly that gap row lies between the two, and by the join gap otherwise - the two sites of the repaired defects 0f837d3 / 7fa0cee are now under contract. Bounded: the gap rule over whole runs (adjacency only where the input had it, input gap only between its own neighbours, join gap elsewhere) - the two sites of the repaired defects (0f837d3, 7fa0cee).",
     "level_note": PIPE_NOTE,
     "lemmas": [],
     "bounded": [("bounded.c07", {})],
